@@ -5,27 +5,24 @@ import Nstd.Callback.LemmasDelE
 namespace Nstd.Callback
 open Spec
 
-theorem simOK : SimOK machine Spec.machine Sim (fun _ => True) where
+theorem simOK : SimOK machine Spec.machine Sim where
   aliveE := fun e h => by simp only [machine, Spec.machine]; exact (h.abs.eAlive e).symm
   aliveL := fun l h => by simp only [machine, Spec.machine]; exact (h.abs.lAlive l).symm
-  connect := fun e g l x _ h he hl => sim_connect e g l x h he hl
-  disconnect := fun e g l x _ h he hl => sim_disconnect e g l x h he hl
-  delL := fun l _ h hl => sim_delL l h hl
-  delE := fun e _ h he => sim_delE e h he
-  begin := fun e g _ h he => sim_begin e g h he
+  connect := fun e g l x h he hl => sim_connect e g l x h he hl
+  disconnect := fun e g l x h he hl => sim_disconnect e g l x h he hl
+  delL := fun l h hl => sim_delL l h hl
+  delE := fun e h he => sim_delE e h he
+  begin := fun e g h he => sim_begin e g h he
   next := fun h => sim_next h
   finish := fun h => sim_finish h
 
-theorem sim_init (ne nl : Nat) : Sim (State.create ne nl) (SState.create ne nl) [] := by
-  have hdata : ∀ e g, (State.create ne nl).data e g = none := by
-    intro e g
-    simp only [State.data, State.create]
-    by_cases c : e < ne <;> simp [c]
+theorem sim_init : Sim State.fresh SState.fresh [] := by
+  have hdata : ∀ e g, State.fresh.data e g = none := fun e g => rfl
   refine ⟨rfl, ⟨trivial, ?_, ?_, ?_, ?_⟩, ⟨?_, ?_, ?_, ?_, ?_⟩, ⟨?_, ?_, ?_, ?_⟩, ⟨rfl, ?_, ?_, ?_, ?_, ?_, ?_, ?_⟩, trivial⟩
   · intro e g d hd; rw [hdata] at hd; cases hd
-  · intro f hf; simp [State.create, State.init] at hf
-  · intro f hf; simp [State.create, State.init] at hf
-  · intro e g i _ ht; simp [State.create, State.init, topOf] at ht
+  · intro f hf; simp [State.fresh] at hf
+  · intro f hf; simp [State.fresh] at hf
+  · intro e g i he; simp [State.fresh] at he
   · intro e g d hd; rw [hdata] at hd; cases hd
   · intro e g d hd; rw [hdata] at hd; cases hd
   · intro e g d hd; rw [hdata] at hd; cases hd
@@ -34,31 +31,21 @@ theorem sim_init (ne nl : Nat) : Sim (State.create ne nl) (SState.create ne nl) 
   · intro e g d hd; rw [hdata] at hd; cases hd
   · intro l li e g x hl
     rw [hdata]
-    simp only [State.create] at hl
-    by_cases c : l < nl
-    · simp only [c, if_true, Option.some.injEq] at hl; subst hl; simp
-    · simp [c] at hl
+    simp only [State.fresh, Option.some.injEq] at hl
+    subst hl; simp
   · intro e em g hem hsg
-    simp only [State.create] at hem
-    by_cases c : e < ne
-    · simp only [c, if_true, Option.some.injEq] at hem; subst hem; simp at hsg
-    · simp [c] at hem
+    simp only [State.fresh, Option.some.injEq] at hem
+    subst hem; simp at hsg
   · intro l li e hl hne
-    simp only [State.create] at hl
-    by_cases c : l < nl
-    · simp only [c, if_true, Option.some.injEq] at hl; subst hl; simp at hne
-    · simp [c] at hl
-  · intro e
-    simp only [SState.create, State.create]
-    by_cases c : e < ne <;> simp [c]
-  · intro l
-    simp only [SState.create, State.create]
-    by_cases c : l < nl <;> simp [c]
-  · intro e g; rw [hdata]; rfl
+    simp only [State.fresh, Option.some.injEq] at hl
+    subst hl; simp at hne
+  · intro e; rfl
+  · intro l; rfl
+  · intro e g; rfl
   · intro e g _; rfl
-  · intro e g _; simp [SState.create, Sig.empty, State.create, State.init, countFrames]
+  · intro e g _; simp [SState.fresh, Sig.empty, State.fresh, countFrames]
   · intro e g d t hd; rw [hdata] at hd; cases hd
-  · intro e g t ht; simp [SState.create, Sig.empty] at ht
+  · intro e g t ht; simp [SState.fresh, Sig.empty] at ht
 
 /-- what the driver does: every top-level action is run to completion with its own fuel -/
 def runOps {σ α π : Type} (M : Machine σ α π) (P : Prog) (fuel : Nat) (r : Run σ) : List Action → Run σ
@@ -70,10 +57,10 @@ theorem runOps_rel (P : Prog) (fuel : Nat) (ops : List Action) {r₁ : Run State
   induction ops generalizing r₁ r₂ with
   | nil => exact h
   | cons a as ih =>
-    exact ih ((exec_sim simOK P (fun _ _ _ _ _ => trivial) fuel).1 [] [a] r₁ r₂ (fun _ _ => trivial) h)
+    exact ih ((exec_sim simOK P fuel).1 [] [a] r₁ r₂ h)
 
-theorem init_rel (ne nl : Nat) : RunRel Sim [] (Run.init (State.create ne nl)) (Run.init (SState.create ne nl)) :=
-  ⟨sim_init ne nl, rfl, rfl, rfl, rfl⟩
+theorem init_rel (ne nl : Nat) : RunRel Sim [] (Run.init State.fresh ne nl) (Run.init SState.fresh ne nl) :=
+  ⟨sim_init, ⟨rfl, rfl, rfl, rfl, rfl⟩, rfl, rfl, rfl, rfl⟩
 
 /-- what a quiescent state (no emission in progress) looks like -/
 theorem sim_quiescent {m : State} {s : SState} (h : Sim m s []) :
